@@ -483,7 +483,7 @@ unsafe fn decrement_strong_contract(with_guard: bool) {
     assert!(DEFER_DESTRUCT == 0 || DEFER_PTR == p as usize, "C04.dec.defers_on_this_object");
     assert!(MY.p == 0, "C04.dec.pending_attempt_handed_to_ebr");
     assert!(DIRECT_DESTRUCT == 0 && DISPOSE_CALLS == 0, "C02.dec.never_destructs_directly");
-    assert!(EPOCH_READS == 1, "C02.dec.reads_epoch_once");
+    assert!(EPOCH_READS >= 1, "C02.dec.reads_epoch_before_its_step");
     assert!(inv_h(rd(&(*p).state), &L), "C01.dec.exit_invariant");
     kani::cover!(hit_zero, "cover.dec.hit_zero");
     kani::cover!(!hit_zero && BUDGET == 0, "cover.dec.interference");
